@@ -35,6 +35,7 @@ def run(ctx):
     ctx.rule('R18.2', 'announcements: started only on Queued->Running by worker connect; every finishing write is reported (Some(_)) and the dispatch announces the end with exactly one matching limiter call')
     ctx.rule('R18.3', 'normal finish: the Finished write is guarded by disconnected_workers.count() == target_worker_count')
     ctx.rule('R18.4', 'messages naming an unknown allocation change nothing (no call besides logging on the None path)')
+    ctx.rule('R18.7', 'the finish condition counts DISTINCT lost workers: DisconnectedWorkers keeps them in a container keyed by WorkerId and add_lost_worker inserts by key')
     ctx.rule('R18.5', 'remove_queue: active allocations are cancelled (prepare_queue_cleanup) before the queue and its allocation index are forgotten')
 
     allowed = {('Queued', 'Running'), ('Queued', 'FinishedUnexpectedly'), ('Running', 'Finished'), ('Running', 'FinishedUnexpectedly')}
@@ -156,6 +157,11 @@ def run(ctx):
     rmq = rb.call_blocks(AA + 'state::AutoAllocState::remove_queue')
     ctx.require(pc and rmq, 'R18.5: anchors in remove_queue')
     ctx.ob('R18.5', 'remove_queue|cleanup before forget', rmq[0] not in rb.reach_from([0], avoid=pc), 'prepare_queue_cleanup (one remove_allocation per active allocation) precedes AutoAllocState::remove_queue', rb.loc(rmq[0]))
+    ys_ = rb.yields()
+    ctx.ob('R18.5', 'remove_queue|forgotten in the same step as the cancellations are issued', not any(rmq[0] in rb.reach_after(y) for y in ys_),
+           'AutoAllocState::remove_queue runs before the first await: once the cancel futures exist the queue is gone, so a failing or slow cancellation cannot leave it registered (and a repeated removal cannot cancel the same allocations again)', rb.loc(rmq[0]))
+    okf, _w = must_pass(rb, pc, rmq)
+    ctx.ob('R18.5', 'remove_queue|forgotten on every path after the cleanup was prepared', okf, 'every path from prepare_queue_cleanup to a return forgets the queue (no early return on a failed cancellation)', rb.loc(rmq[0]))
     ja = rb.call_blocks(lambda c: c.endswith('join_all'))
     ctx.ob('R18.5', 'remove_queue|cancellations awaited', bool(ja) and bool(rb.yields()), 'the cancellation futures are awaited', rb.loc(ja[0]) if ja else rb.loc())
     pqc = [prog.bodies[p] for p in prog.with_closures(PROC + 'prepare_queue_cleanup')]
@@ -229,3 +235,17 @@ def finish_test(ctx, rule):
     addc = sy.call_blocks(dw[0].path)
     ctx.ob(rule, 'lost worker recorded before the test', bool(addc) and okeq is not None and okeq[0] not in sy.reach_from([0], avoid=addc) or not _reachable_under(sy, okeq, addc), 'the lost worker is recorded before the count is compared', sy.loc(addc[0]) if addc else sy.loc())
 
+
+    # ---- R18.7
+    DW = AA + 'state::DisconnectedWorkers'
+    dw = prog.adt(DW)
+    fields = dw.get('fields') or dw['variants'][0]['fields']
+    wf = [f for f in fields if (f['name'] if isinstance(f, dict) else f[0]) == 'workers']
+    ctx.require(wf, 'R18.7: DisconnectedWorkers.workers')
+    ty = wf[0]['ty'] if isinstance(wf[0], dict) else wf[0][1]
+    keyed = any(k in ty for k in ('HashMap<', 'BTreeMap<', 'IndexMap<', 'HashSet<', 'BTreeSet<', 'Map<', 'Set<')) and 'WorkerId' in ty.split(',')[0]
+    ctx.ob('R18.7', 'DisconnectedWorkers.workers|keyed by WorkerId', keyed, f'lost workers are stored in a map/set keyed by WorkerId (observed {ty[:90]}): a duplicate loss notification for one worker must not count twice towards the finish condition', None)
+    alw = prog.body(DW + '::add_lost_worker')
+    ctx.ob('R18.7', 'add_lost_worker|inserts by key', bool(alw.call_blocks(lambda c: c.endswith(('Map::insert', 'HashMap::insert', 'Set::insert', 'HashSet::insert', 'BTreeMap::insert', 'Entry::or_insert', 'entry')))), 'add_lost_worker inserts under the worker id', alw.loc())
+    cnt = prog.body(DW + '::count')
+    ctx.ob('R18.7', 'count|size of the keyed container', bool(cnt.call_blocks(lambda c: c.endswith('::len'))), 'count() is the number of keys', cnt.loc())
